@@ -25,10 +25,12 @@ def run(chk):
         subs = rnd.choice([[], [], [], [{"aid": [160, 0, 0, 0, 4, 16, 16]}], [{}], [{}, {"aid": [1, 2]}]])
         rand.append({"calls": [{"op": "read_card"}], "plan": {"exchanges": [{"o": "status", "uid": uid if rnd.random() < 0.95 else None, "subs": subs,
                                                                               "inter": rnd.choice([0, 0, 1, 3])}]}})
-    out = cl.run_scenarios(binary, sc + rand, wd, "c18")
+    scripts = cl.script_walks(chk, binary, wd, chk.seed + 18, 2000 if thorough else 150)
+    out = cl.run_scenarios(binary, sc + rand + scripts, wd, "c18")
     outs, ifl, pfl = cl.validate(chk, out, wd, "c18", shard=800)
     cl.report(chk, outs, ifl, pfl, {"P18", "abnormal"}, WHAT)
     chk.cov["traces_validated_against_impl"] = len(outs)
+    chk.cov["reply_script_walks"] = len(scripts)
     chk.cov["evaluations"] = len(outs)
     chk.cov["distinct_nontrivial"] = len(sc)
     chk.cov["rule"] = ("TLC generates status replies: UID of 0..20 bytes x 5 zero-prefix / case patterns x 6 application-list shapes x 0..3 leading "
